@@ -81,9 +81,21 @@ static void settle(LocalNetwork* n)
   try { n->null_space(); } catch (const GNU_gama::Exception::base&) {} catch (const GNU_gama::local::Exception&) {}
 }
 
+// "par:*": a parameter of the statistical analysis is set (type of m_0, confidence probability).  It is input, not a
+// query: a used object gets it between queries, the reference before its first adjustment.
+static bool is_par(const std::string& c) { return c.compare(0, 4, "par:") == 0; }
+static void set_par(LocalNetwork* n, const std::string& c)
+{
+  static const double CP[] = {0.95, 0.99, 0.90, 0.5};
+  if (c == "par:a") n->set_m_0_apriori();
+  else if (c == "par:p") n->set_m_0_aposteriori();
+  else if (c.compare(0, 5, "par:c") == 0) n->conf_pr(CP[atoi(c.c_str() + 5) % 4]);
+}
+
 static void apply_change(LocalNetwork* n, const std::string& c)
 {
-  if (c == "refine") n->refine_adjustment();
+  if (is_par(c)) set_par(n, c);
+  else if (c == "refine") n->refine_adjustment();
   else if (c == "refcoord") { n->solve(); n->refine_approx_coordinates(); }
   else if (c.compare(0, 4, "alg:") == 0) n->set_algorithm(c.substr(4));
   else if (c.compare(0, 8, "passive:") == 0) { set_passive(n, atoll(c.c_str() + 8)); settle(n); }
@@ -100,10 +112,10 @@ static Built build(const gnet::Doc& d, const std::string& alg0, const std::vecto
     gnet::parse_gkf(*b.net, d.bytes);
     b.net->set_gons();
     gnet::Prep p = gnet::prepare_like_main(b.net.get(), alg0, [&](LocalNetwork* n) {
-      for (auto& c : changes) if (c.compare(0, 8, "passive:") == 0) set_passive(n, atoll(c.c_str() + 8));
+      for (auto& c : changes) { if (c.compare(0, 8, "passive:") == 0) set_passive(n, atoll(c.c_str() + 8)); else if (is_par(c)) set_par(n, c); }
     });
     b.adjustable = p.adjustable; b.why = p.why;
-    if (b.adjustable) for (auto& c : changes) if (c.compare(0, 8, "passive:") != 0) apply_change(b.net.get(), c);
+    if (b.adjustable) for (auto& c : changes) if (c.compare(0, 8, "passive:") != 0 && !is_par(c)) apply_change(b.net.get(), c);
   });
   if (!r.exc.empty()) { b.adjustable = false; b.why = "exception " + r.exc; }
   return b;
@@ -203,6 +215,12 @@ Verdict execute(const Plan& plan, EventLog& log, Stats& st)
       apply_change(net, fmt("upd:%d", w)); O.changes.push_back(fmt("upd:%d", w));
       log.line("%d o%lld update(%d)", n, s.arg(0) % nobj, w); st.add("ops.update"); st.nontrivial = true; st.shape += fmt("net:upd%d,", w);
       st.state("hist", fmt("net/update%d/asked%d", w, std::min(O.asked, 2)));
+    } else if (op == "par") {
+      int w = (int)(s.arg(1) % 3);
+      std::string c = w == 0 ? "par:a" : w == 1 ? "par:p" : fmt("par:c%d", (int)(s.arg(2) % 4));
+      apply_change(net, c); O.changes.push_back(c);
+      log.line("%d o%lld %s", n, s.arg(0) % nobj, c.c_str()); st.add("ops.parameter"); st.nontrivial = true; st.shape += "net:" + c + ",";
+      st.state("hist", fmt("net/%s/asked%d", c.substr(0, 5).c_str(), std::min(O.asked, 2)));
     } else if (op == "chg") {
       int w = (int)(s.arg(1) % 6);
       bool moved = false; for (auto& c0 : O.changes) if (c0 == "refine" || c0 == "refcoord") moved = true;
@@ -269,7 +287,8 @@ void generate(Plan& p, Rng& g, const std::string&)
     else if (T.flavour == 2) query(F2[g.below(16)]);
     else {
       int r = (int)g.below(10);
-      if (r < 4) { s.op = "upd"; s.a.push_back((long long)g.below(4)); }
+      if (r < 3) { s.op = "upd"; s.a.push_back((long long)g.below(4)); }
+      else if (r < 5) { s.op = "par"; s.a.push_back((long long)g.below(3)); s.a.push_back((long long)g.below(4)); }
       else if (r < 7) { s.op = "chg"; long long w = (long long)g.below(7); if (w == 6) w = 5; s.a.push_back(w); s.a.push_back((long long)g.below(w == 5 ? 1000 : 4)); }
       else query(g.chance(1, 2) ? F0[g.below(9)] : F1[g.below(12)]);
     }
